@@ -114,7 +114,7 @@ def plant(rng, s, adapters, allow_errors=True):
 
 
 def gen_quals(rng, n, profile=None, base=33):
-    profile = profile or rng.choice(["high", "decay", "mixed", "q0", "twolevel", "lowbase"])
+    profile = profile or rng.choice(["high", "decay", "mixed", "q0", "twolevel", "lowbase", "full"])
     if profile == "high":
         q = [rng.choice([30, 35, 40]) for _ in range(n)]
     elif profile == "decay":
@@ -127,6 +127,9 @@ def gen_quals(rng, n, profile=None, base=33):
         q = [rng.choice([2, 12, 25, 40]) for _ in range(n)]
     elif profile == "q0":
         q = [0] * n
+    elif profile == "full":
+        # every quality character of the usual range, including '"' (Q1 with base 33), "'", ',' and ';'
+        q = [rng.randint(0, 41) for _ in range(n)]
     elif profile == "twolevel":
         q = [rng.choice([0, 40]) for _ in range(n)]
     else:  # characters below the quality base (only meaningful with --zero-cap)
